@@ -629,6 +629,24 @@ pub fn run(ctx: &Ctx) -> Evidence {
         }
         st
     });
+    // ---------------- component part, long blocks: one block of 32769..49000 bytes (a typical game's
+    // code block, 4 minutes of tape; mostly not a multiple of the deck's 128-byte window) followed by
+    // a short one, played to the end in 16-T steps
+    let n_long = ctx.scale(2, 12) as usize;
+    let long = par_map(ctx.jobs(), n_long, |i| {
+        let mut st = CompStats { wave: WaveStats::new(), calls: 0, tapes: 0, fingerprints: HashSet::new(), modes: [0; 6], sample: None };
+        if !selected(&only, "C11 component-long", i as u64) {
+            return st;
+        }
+        let mut rng = Rng::fork(ctx.seed ^ 0xC11_10, i as u64);
+        let n = *rng.pick(&[32769usize, 33000, 40000, 48000, 49000]) + rng.below(120) as usize;
+        let blocks = Rc::new(vec![mk_block(0xFF, &rng.bytes(n - 2), true), mk_block(*rng.pick(&[0x00u8, 0xFF]), &rng.bytes(17), true)]);
+        let case = jobj! {"stream"=>"C11 component-long", "tape_index"=>i, "seed"=>ctx.seed};
+        let srng = Rng::fork(ctx.seed ^ 0xC11_57E9, 1_000_000 + i as u64);
+        play_component(ctx, &case, &blocks, StepMode::All16, srng, &mut st);
+        st.modes = [0; 6];
+        st
+    });
     // ---------------- system part
     let n_sys = ctx.scale(32, 400) as usize;
     let sys = par_map(ctx.jobs(), n_sys, |i| {
@@ -688,6 +706,13 @@ pub fn run(ctx: &Ctx) -> Evidence {
             ev.sample(s);
         }
     }
+    let mut long_tapes = 0u64;
+    for r in long {
+        wave.merge(&r.wave);
+        ev.add_num("process_clocks_calls", r.calls);
+        long_tapes += r.tapes;
+    }
+    ev.add("long_block_tapes_played_to_end", long_tapes);
     let mut sys_fps = HashSet::new();
     let (mut reqs, mut okl, mut cs) = (0, 0, 0);
     for r in sys {
@@ -762,6 +787,7 @@ pub fn run(ctx: &Ctx) -> Evidence {
         ctx.require(&format!("tapes under partition {:?}", STEP_MODES[i]), modes[i], 4);
     }
     ctx.require("cpu-wave pulses bounded in CPU time", cws.pulses, n_cw as u64 * 500);
+    ctx.require("long-block tapes played to their end", long_tapes, n_long as u64);
     ctx.require("ear-port cases that saw both tape levels", eb, n_ear as u64 / 2);
     ctx.require("system-level requests compared", reqs as u64, (n_sys as u64 * 3) / 2 / 2);
     ctx.require("system-level successful real-time loads", okl as u64, n_sys as u64 / 8);
